@@ -8,6 +8,7 @@ import numpy as np
 
 import katdal
 from fixtures import v4
+from fixtures.mkv1 import mkv1
 from fixtures.mkv2 import mkv2
 from fixtures.mkv3 import mkv3
 
@@ -19,8 +20,8 @@ TARGETS = ['A | Aalias, radec bpcal, 19:39:25.03, -63:42:45.6',
            'E | Cee, radec gaincal, 02:00:00.0, -15:00:00.0',          # shares the alias Cee with C
            'A, radec target, 01:00:00.0, -05:00:00.0']                  # same name as the first one, another target
 
-BASE = {'v4': 1600000000.0, 'v3': 1500000000.0, 'v2': 1300000000.0}
-SENSOR_NAME = {'v4': 'anc_c19_%s', 'v3': 'anc/c19_%s', 'v2': 'Enviro/c19_%s'}
+BASE = {'v4': 1600000000.0, 'v3': 1500000000.0, 'v2': 1300000000.0, 'v1': 1200000000.0}
+SENSOR_NAME = {'v4': 'anc_c19_%s', 'v3': 'anc/c19_%s', 'v2': 'Enviro/c19_%s', 'v1': 'Enviro/c19_%s'}
 CENTRE = [1284e6, 1284e6 + 856e6 / 4096 * 64]
 
 
@@ -70,6 +71,26 @@ class Part:
                 kw['bls_ordering'] = spec['bls']
             self.x = v4.build_v4(**kw)
             self.fn = None
+        elif fmt == 'v1':
+            # v1 files store scans inside compound scans: cut the dumps at every event
+            self.fn = os.path.join(tmp, '%s_%d.h5' % (tag, int(BASE[fmt] + spec['start'])))
+            cuts = sorted({0} | {d for d, _ in spec['acts']} | {d for d, _ in spec['targets']} | {d for d, _ in spec['labels']})
+            cuts = [c for c in cuts if c < spec['T']] + [spec['T']]
+
+            def last(events, d, default):
+                v = default
+                for dd, x in events:
+                    if dd <= d:
+                        v = x
+                return v
+            scans, csn, prev = [], -1, None
+            for a, b in zip(cuts[:-1], cuts[1:]):
+                key = (last(spec['labels'], a, ''), last(targets, a, TARGETS[0]))
+                if key != prev:
+                    csn, prev = csn + 1, key
+                scans.append((csn, key[0], key[1], last(spec['acts'], a, 'slew'), b - a))
+            mkv1(self.fn, scans, F=spec['F'], ants=tuple(spec['ants']), t0=BASE[fmt] + spec['start'], dt=spec['dt'],
+                 seed=spec['seed'])
         else:
             self.fn = os.path.join(tmp, '%s_%d.h5' % (tag, int(BASE[fmt] + spec['start'])))
             t0 = BASE[fmt] + spec['start']
